@@ -448,7 +448,13 @@ impl Authorizer {
                     return Err(error::Token::RunLimit(error::RunLimit::Timeout));
                 }
 
-                if res {
+                if check.kind == CheckKind::Reject {
+                    // a reject check passes only if none of its queries matches
+                    successful = res;
+                    if !res {
+                        break;
+                    }
+                } else if res {
                     successful = true;
                     break;
                 }
@@ -507,7 +513,13 @@ impl Authorizer {
                         return Err(error::Token::RunLimit(error::RunLimit::Timeout));
                     }
 
-                    if res {
+                    if check.kind == CheckKind::Reject {
+                        // a reject check passes only if none of its queries matches
+                        successful = res;
+                        if !res {
+                            break;
+                        }
+                    } else if res {
                         successful = true;
                         break;
                     }
@@ -600,7 +612,13 @@ impl Authorizer {
                             return Err(error::Token::RunLimit(error::RunLimit::Timeout));
                         }
 
-                        if res {
+                        if check.kind == CheckKind::Reject {
+                            // a reject check passes only if none of its queries matches
+                            successful = res;
+                            if !res {
+                                break;
+                            }
+                        } else if res {
                             successful = true;
                             break;
                         }
